@@ -71,7 +71,7 @@ def run(R, ctx):
               'writers::file_log_writer::state::RollState::rotation_necessary' in cg.reachable([callee_name(t)], spawn=False)]
     R.check('R01.7', f"{b.path}|decide-before-write", bool(mounts) and any(C.dominates(b, m, wbb) for m in mounts),
             "rotation decision dominates write_all", "write_all is not dominated by the rotation decision", where=b.loc(wbb))
-
+    family_predicate_proxy(R, ctx, 'R01.8', 'the listing the collision check and the numbering rely on recognises exactly the family (shared with R14.2)')
 
 # ---------------------------------------------------------------------------------------------- R01.1
 def emission(R, ctx, rule='R01.1', le_check=True, roots=(FILE_ROOT,), le_pattern='line_ending', only=None):
